@@ -43,11 +43,22 @@ ExpectedRows == [i \in DOMAIN FileLabels |-> <<FileLabels[i]>>] \o [i \in DOMAIN
 \* the known stale-erase race: between a thread's hook phase (where it read the region height h)
 \* and its next write, another thread wrote a frame of a different height
 FrameHeight(ops) == LET ts == SelectSeq(ops, LAMBDA o : o[1] = "t" /\ (IsFrame(o[2]) \/ o[2] = Ellipsis)) IN Len(ts)
+\* ... or moved the cursor to another row at all (a stop()'s line break, printed lines): the erase sequence computed in
+\* the hook phase is relative to where the cursor was then
+MovesRow(ops) == \E j \in DOMAIN ops : ops[j][1] \in {"nl", "cuu"}
 StaleErase == \E i \in DOMAIN R.events : R.events[i].e = "hook" /\
                  \E k \in (i + 1)..Len(R.events) :
                     /\ R.events[k].e = "write" /\ R.events[k].t # R.events[i].t
-                    /\ FrameHeight(R.events[k].ops) # R.events[i].h
+                    /\ (FrameHeight(R.events[k].ops) # R.events[i].h \/ MovesRow(R.events[k].ops))
                     /\ \A m \in (i + 1)..(k - 1) : ~(R.events[m].e = "write" /\ R.events[m].t = R.events[i].t)
+\* a second known defect: a print inside a capture block runs the display's render hook - the frame is rendered into the
+\* capture and the display remembers its height although nothing was drawn; when that changes the remembered height the
+\* next refresh erases rows that hold something else (h at the hook phase vs h when the capture block ends)
+CapturedResize == \E i \in DOMAIN R.events : R.events[i].e = "hook" /\ R.events[i].cap /\
+                     \E k \in (i + 1)..Len(R.events) :
+                        /\ R.events[k].e = "capend" /\ R.events[k].t = R.events[i].t /\ R.events[k].h # R.events[i].h
+                        /\ \A m \in (i + 1)..(k - 1) : ~(R.events[m].e = "capend" /\ R.events[m].t = R.events[i].t)
+Why == (IF StaleErase THEN " stale-erase" ELSE "") \o (IF CapturedResize THEN " captured-resize" ELSE "")
 \* programs whose workers stop / start the display: frames left behind by a stop are legitimate rows, so only the printed
 \* lines are compared (all there, once, in file order) - the per-operation clauses (overwrite, erased line, cursor) stay
 PrintedRows(rows) == SelectSeq(Cat(rows), LAMBDA x : IsPrinted(x))
@@ -59,9 +70,9 @@ Verdict ==
     ELSE IF ~CaptureIsolated THEN "capture-not-isolated"
     ELSE IF ~RecordOrder THEN "record-order-differs"
     ELSE IF ~R.live THEN "ok"
-    ELSE IF Final.bad # "none" THEN Final.bad \o (IF StaleErase THEN " stale-erase" ELSE "")
-    ELSE IF R.startstop /\ PrintedRows(Final.rows) # FileLabels THEN "printed-lines-differ-on-screen"
-    ELSE IF ~R.startstop /\ NonEmptyRows(Final.rows) # ExpectedRows THEN "screen-differs" \o (IF StaleErase THEN " stale-erase" ELSE "")
+    ELSE IF Final.bad # "none" THEN Final.bad \o Why
+    ELSE IF R.startstop /\ PrintedRows(Final.rows) # FileLabels THEN "printed-lines-differ-on-screen" \o Why
+    ELSE IF ~R.startstop /\ NonEmptyRows(Final.rows) # ExpectedRows THEN "screen-differs" \o Why
     ELSE IF ~Final.vis THEN "cursor-left-hidden"
     ELSE "ok"
 
